@@ -24,7 +24,7 @@ ASSUMPTIONS = [
     "interrupt conditions / guards are pure reads of the scripted truth table at the current step",
 ]
 MIN_COUNTERS = {
-    "quick": {"runs": 8000, "programs": 150, "handler_entered": 2000, "guard_outcomes": 300, "abort_used": 100, "break_or_continue_used": 50, "nested_try_programs": 30},
+    "quick": {"runs": 8000, "programs": 150, "scenario_form_runs": 500, "handler_entered": 2000, "guard_outcomes": 300, "abort_used": 100, "break_or_continue_used": 50, "nested_try_programs": 30},
     "thorough": {"runs": 200000, "programs": 3000, "handler_entered": 50000, "guard_outcomes": 6000, "abort_used": 2000, "break_or_continue_used": 1000, "nested_try_programs": 600},
 }
 MANIFEST_ENTRY = {
@@ -434,7 +434,7 @@ def compare(m, r):
 def plan(tier, seed):
     n_prog = 192 if tier == "quick" else 4000
     n_sh = 16 if tier == "quick" else 64
-    return [{"shard": i, "programs": n_prog // n_sh, "tables": 48 if tier == "quick" else 96, "timeout": 1500 if tier == "quick" else 3400} for i in range(n_sh)]
+    return [{"shard": i, "programs": n_prog // n_sh, "scenario_programs": 3 if tier == "quick" else 12, "tables": 48 if tier == "quick" else 96, "timeout": 1500 if tier == "quick" else 3400} for i in range(n_sh)]
 
 
 def _uses(prog, kinds):
@@ -538,10 +538,12 @@ def run_shard(spec):
         C[k] = C.get(k, 0) + n
 
     seen_keys = set()
-    for i in range(spec["programs"]):
-        pseed = (spec["seed"] * 1000003 + spec["shard"]) * 100003 + i
+    nscen = spec.get("scenario_programs", 0)
+    for i in range(spec["programs"] + nscen):
+        is_scen = i >= spec["programs"]
+        pseed = (spec["seed"] * 1000003 + spec["shard"]) * 100003 + i + (500000 if is_scen else 0)
         rng = random.Random(pseed)
-        if i % 4 == 3:
+        if is_scen:
             prog = gen_scenario_program(rng)
             tabs = tables(rng, spec["tables"] // 2)
             viol, src, nontriv = check_scenario_program(prog, tabs, res, bump)
@@ -562,7 +564,7 @@ def run_shard(spec):
             per_prog += 1
             if per_prog > 3:
                 break
-            res["violations"].append({"key": key, "what": what + " || " + src.replace("\n", " ; ")[:1200], "witness": {"pseed": pseed, "table_index": ti, "ntables": spec["tables"], "form": "scenario" if i % 4 == 3 else "behavior"}})
+            res["violations"].append({"key": key, "what": what + " || " + src.replace("\n", " ; ")[:1200], "witness": {"pseed": pseed, "table_index": ti, "ntables": spec["tables"], "form": "scenario" if is_scen else "behavior"}})
     return res
 
 
